@@ -407,7 +407,8 @@ structure St where
   cons : CState
   got : List Nat          -- delivered to the consumer of the output iterator
   seen : List Nat         -- items for which the user function returned (no output stage)
-  dropped : List Nat
+  droppedW : List Nat      -- ghost: items given up by a worker on an abort path
+  droppedR : List Nat      -- ghost: the item given up by the reader on its abort path
   waiters : Nat
   closeBudget : Nat
   cancelBudget : Nat
@@ -449,7 +450,7 @@ def init (c : Cfg) (input : List Nat) (closes cancels : Nat) : St :=
   { src := input, rd := .notStarted, spawned := 0, pclosed := false, started := !c.lazy, fresh := c.n, idle := 0,
     hold := [], wexited := 0, out := [], oclosed := false, wcancel := false, kst := .waiting, closed := false,
     ucancel := false, envStopped := false, cons := if c.hasOut then .idle else .done, got := [], seen := [],
-    dropped := [], waiters := 0, closeBudget := closes, cancelBudget := cancels }
+    droppedW := [], droppedR := [], waiters := 0, closeBudget := closes, cancelBudget := cancels }
 
 def step (c : Cfg) (s : St) : Act → Option St
   | .close =>
@@ -492,7 +493,7 @@ def step (c : Cfg) (s : St) : Act → Option St
   | .rCtx =>
     match s.rd with
     | .running h =>
-      if s.wdone2 then some { s with rd := .exited, pclosed := true, dropped := s.dropped ++ h.toList } else none
+      if s.wdone2 then some { s with rd := .exited, pclosed := true, droppedR := s.droppedR ++ h.toList } else none
     | _ => none
   | .rEof =>
     match s.rd, s.src with
@@ -520,14 +521,14 @@ def step (c : Cfg) (s : St) : Act → Option St
     match s.hold[i]? with
     | some x =>
       if c.hasOut = true ∧ s.wdone2 = true then
-        some { s with hold := s.hold.eraseIdx i, wexited := s.wexited + 1, dropped := s.dropped ++ [x] }
+        some { s with hold := s.hold.eraseIdx i, wexited := s.wexited + 1, droppedW := s.droppedW ++ [x] }
       else none
     | none => none
   | .wSendClosed i =>
     match s.hold[i]? with
     | some x =>
       if c.hasOut = true ∧ s.oclosed = true then
-        some { s with hold := s.hold.eraseIdx i, wexited := s.wexited + 1, dropped := s.dropped ++ [x] }
+        some { s with hold := s.hold.eraseIdx i, wexited := s.wexited + 1, droppedW := s.droppedW ++ [x] }
       else none
     | none => none
   | .wFinish i =>
@@ -557,7 +558,7 @@ def Reachable (c : Cfg) (input : List Nat) (closes cancels : Nat) (s : St) : Pro
   ∃ as, run c (init c input closes cancels) as = some s
 
 def St.items (s : St) : List Nat :=
-  s.got ++ s.seen ++ s.out ++ s.hold ++ s.rd.held ++ s.dropped ++ s.src
+  s.got ++ s.seen ++ s.out ++ s.hold ++ s.droppedW ++ s.rd.held ++ s.droppedR ++ s.src
 
 def measure (s : St) : Nat :=
   9 * s.src.length + 8 * s.rd.held.length + 6 * s.hold.length + 3 * s.out.length + s.rd.rank
